@@ -400,6 +400,71 @@ def pick_dims(rng, data_rank, qrank=None):
     return dtag, qtag
 
 
+
+# query-array shapes of rank >= 3: at least two axes before the last one are longer than 1 in most of them and the lengths differ,
+# so that a result written to a transposed / differently unravelled position is a different query's result (seed C01-r5m1)
+QSHAPES_3 = [[2, 3, 2], [3, 2, 2], [2, 2, 3], [2, 3, 1], [3, 2, 1], [2, 1, 3], [1, 2, 2], [3, 2, 3]]
+QSHAPES_4 = [[2, 3, 1, 2], [2, 2, 2, 2], [3, 2, 2, 1], [2, 1, 3, 2]]
+
+
+def fill_shape(rng, qshape, *qlists):
+    """element lists for a query array of shape qshape, drawn from qlists (same positions from every list); distinct neighbours"""
+    k = shape_size(qshape)
+    m = len(qlists[0])
+    idx = [i % m for i in range(k)]
+    rng.shuffle(idx)
+    return [[ql[i] for i in idx] for ql in qlists]
+
+
+def query_shape(rng, nq, ranks=(0, 1, 1, 1, 2, 2, 3, 3, 4)):
+    """a query shape of rank 0..4 for about nq query points"""
+    k = rng.choice(ranks)
+    if k == 0:
+        return []
+    if k == 1:
+        return [max(1, nq)]
+    if k == 2:
+        a = max(1, nq // 2)
+        return rng.choice([[a, 2], [2, a], [a, 3]])
+    return list(rng.choice(QSHAPES_3 if k == 3 else QSHAPES_4))
+
+
+LONG_KINDS = ["quadratic", "cubic-rev", "wide-last", "wide-first", "log", "sqrt", "growing", "random"]
+
+
+def long_axis(rng, kind, n, S):
+    """strictly increasing axis of n >= 2 points for long, unevenly spaced axes; S in Q / F / I (exactly representable values)"""
+    if kind == "quadratic":
+        v = [i * i for i in range(n)]
+    elif kind == "cubic-rev":
+        v = [-(n - i) ** 3 for i in range(n)]
+    elif kind == "wide-last":
+        v = list(range(n - 1)) + [4 * n]
+    elif kind == "wide-first":
+        v = [-4 * n] + list(range(1, n))
+    elif kind == "sqrt":
+        v = [int(1000 * math.sqrt(i)) for i in range(n)]
+    elif kind == "log":
+        v = [int(4000 * math.log(1 + i)) for i in range(n)]
+    elif kind == "growing":
+        v, st = [0], 1.0
+        for _ in range(n - 1):
+            v.append(v[-1] + max(1, int(st))); st *= 1.04
+    else:
+        v = [0]
+        for _ in range(n - 1):
+            v.append(v[-1] + rng.choice([1, 1, 1, 2, 5, 40]))
+    assert all(a < b for a, b in zip(v, v[1:])), kind
+    off = rng.randint(-50, 50)
+    if S == "Q":
+        d = rng.choice([1, 1, 3, 8])
+        return [Fr(x + off, d) for x in v]
+    if S == "F":
+        sc = rng.choice([1.0, 0.125, 3.0])
+        return [float(x + off) * sc for x in v]
+    return [x + off for x in v]
+
+
 def lanes_of(shape, k=1):
     return shape_size(shape[k:])
 
